@@ -4,7 +4,8 @@ Correspondence: for every active branch of generated passive networks the model 
 branch row and solved voltages) predicts pl_mw/ql_mvar of the result tables, and the dissipation formula of theorem
 C03_pi_loss_identity (series resistance + shunt conductances) must give the same number.
 Oracle: on the real result tables  pl_mw = p_from + p_to (trafo3w: hv+mv+lv),  pl_mw >= -tol for every branch,
-sum(generation) - sum(consumption) = sum(pl_mw);  DC: pl_mw = 0, generation = consumption."""
+sum(generation) - sum(consumption) = sum(pl_mw);  DC: pl_mw = 0 (trafo3w: = p_hv+p_mv+p_lv = star-point iron losses, if any),
+generation - consumption = sum(pl_mw)."""
 import json, math, os, glob, cmath
 import numpy as np
 import pandapower as pp
@@ -21,7 +22,7 @@ ASSUMPTIONS = ["runpp / rundcpp are oracles (their voltages are inputs of the lo
                "nodal power balance at every bus (C01, other builder) is the hypothesis of C03_global_conservation; here the global sum is "
                "checked on the result tables of generated nets with constant-power loads only"]
 TRUSTED = ["mapping of result tables to generation / consumption / losses in harness/props/c03.py"]
-KIND_DC_STAR = "C03-dc-trafo3w-star-pfe"
+# the defect C03-dc-trafo3w-star-pfe (pl_mw = 0 although the DC model keeps the star-point iron losses) was repaired in /repo
 
 
 def totals(net):
@@ -63,8 +64,9 @@ def ac_oracle(ctx, d, net):
     ctx.count("ac_oracle_nets")
 
 
-def dc_star(d):
-    return any(w["in"] and w["loss"] == "star" and w["pfe"] > 0 for w in d["t3"])
+def dc_star_loss(d):
+    """iron losses kept by the DC model: trafo3w_losses="star" turns pfe_kw into a real shunt at the auxiliary bus (|V| = 1)"""
+    return sum(w["pfe"] * 1e-3 * (110.0 / w["vn"][0]) ** 2 for w in d["t3"] if w["in"] and w["loss"] == "star")
 
 
 def dc_oracle(ctx, d, terms, pend):
@@ -75,18 +77,24 @@ def dc_oracle(ctx, d, terms, pend):
     except Exception as e:
         ctx.count("dc_failed_" + type(e).__name__)
         return
-    for tab in ("res_line", "res_trafo", "res_trafo3w", "res_impedance"):
+    for tab in ("res_line", "res_trafo", "res_impedance"):
         r = net[tab]
         if len(r) and not np.allclose(np.nan_to_num(r.pl_mw.values), 0.0, atol=1e-12):
             ctx.violation("spec", "DC: %s.pl_mw is not zero" % tab, d)
+    if len(net.res_trafo3w):
+        r = net.res_trafo3w
+        s3 = np.nan_to_num(r.p_hv_mw.values + r.p_mv_mw.values + r.p_lv_mw.values)
+        if not np.allclose(np.nan_to_num(r.pl_mw.values), s3, atol=1e-12):
+            ctx.violation("spec", "DC: res_trafo3w.pl_mw %r is not p_hv + p_mv + p_lv = %r" % (r.pl_mw.values.tolist(), s3.tolist()), d)
+        # the series branches are lossless; only the star-point iron losses (a real shunt the DC model keeps) may appear
+        exp = dc_star_loss(d)
+        if abs(np.nansum(r.pl_mw.values) - exp) > 1e-9 * max(1.0, exp):
+            ctx.violation("spec", "DC: res_trafo3w.pl_mw sums to %.9g, expected %.9g (star-point iron losses only)" % (np.nansum(r.pl_mw.values), exp), d)
     gen, cons, loss = totals(net)
-    if abs(gen - cons) > 1e-7 * max(1.0, abs(gen)):
-        kind = "spec"
-        if dc_star(d):
-            exp = sum(w["pfe"] * 1e-3 * (110.0 / w["vn"][0]) ** 2 for w in d["t3"] if w["in"] and w["loss"] == "star")
-            if abs((gen - cons) - exp) <= 1e-6 * max(1.0, exp):
-                kind = KIND_DC_STAR
-        ctx.violation(kind, "DC: total generation %.9g != total consumption %.9g (difference %.9g) while every pl_mw is 0" % (gen, cons, gen - cons), d)
+    if abs(gen - cons - loss) > 1e-7 * max(1.0, abs(gen)):
+        ctx.violation("spec", "DC: total generation %.9g - total consumption %.9g = %.9g but the reported losses sum to %.9g" % (gen, cons, gen - cons, loss), d)
+    if dc_star_loss(d) > 0:
+        ctx.count("dc_star_iron_loss_nets")
     # model: DC flow of every active branch sums to zero
     ppc = net._ppc
     br, bus = ppc["branch"].real, ppc["bus"].real
@@ -165,7 +173,7 @@ def run(ctx):
     for f in sorted(glob.glob(os.path.join(cq.VERIF, "corpus", "C03", "*.json"))):
         _one(ctx, json.load(open(f))["desc"], terms, pend, sample=True)
         ctx.count("corpus")
-    for k in range(ctx.n(100, 1500)):
+    for k in range(ctx.n(70, 1500)):
         _one(ctx, g.gen_desc(rng, passive=True), terms, pend, sample=(k < 2))
     model = ctx.coq_eval("c03", "Base.QN Base.QC C31.Model C02.Model C03.Model", terms, shard=30, timeout=900)
     _compare(ctx, pend, model)
